@@ -1009,6 +1009,29 @@ pub fn adversarial_packets(r: &mut Rng, scale: usize) -> Vec<Vec<u8>> {
             out.push(p);
         }
     }
+    // pure pointer chains of depth d inside opaque data (never validated as names), depths around 16 and around the
+    // powers of two a narrow counter would wrap at, with records whose owner starts at the top
+    for d in [17usize, 100, 255, 256, 257, 260, 272, 273, 511, 512, 513, 528, 1024, 1030, 4095, 4096, 4100] {
+        let nrec = scale.min(600);
+        let mut rd: Vec<u8> = vec![1, b'z', 0];
+        let mut p = header(24, 0x8180, 1, (1 + nrec) as u16, 0, 0);
+        question(&mut p, &[1, b'q', 0], 16);
+        let base = p.len() + 3 + 10;
+        let mut target = base;
+        for _ in 0..d {
+            let here = base + rd.len();
+            if here + 2 > 16383 {
+                break;
+            }
+            rd.extend(ptr(target));
+            target = here;
+        }
+        rr(&mut p, &[1, b'q', 0], 16, 1, &rd);
+        for _ in 0..nrec {
+            rr(&mut p, &ptr(target), 1, 1, &[1, 1, 1, 1]);
+        }
+        out.push(p);
+    }
     // loops
     for k in [1usize, 2, 5] {
         let mut p = header(14, 0x8000, 1, k as u16, 0, 0);
@@ -1131,6 +1154,36 @@ pub fn compress_families() -> Vec<Vec<u8>> {
                 p[7] = count as u8;
                 out.push(p);
             }
+        }
+    }
+    // a ladder of nested names up to depth 15 / 16, then N records that repeat an already known name in full (nothing
+    // new enters the dictionary), N around 2^8 and 2^9, then one more name extending the deepest one
+    for depth in [15usize, 16] {
+        for n in [0usize, 100, 254, 255, 256, 257, 300, 511, 512, 513] {
+            let mut p = header(23, 0x8000, 1, 0, 0, 0);
+            let qn = [1u8, b'n', 0];
+            question(&mut p, &qn, 1);
+            let mut cur: Vec<u8> = qn.to_vec();
+            let mut count = 0u16;
+            for k in 0..depth {
+                let mut nm = lab(k);
+                nm.extend(&cur);
+                cur = nm;
+                rr(&mut p, &cur, 1, 1, &[1, 1, 1, 1]);
+                count += 1;
+            }
+            for i in 0..n {
+                rr(&mut p, &qn, 1, 2, &[2, 2, (i >> 8) as u8, i as u8]);
+                count += 1;
+            }
+            let mut nm = vec![2, b'z', b'z'];
+            nm.extend(&cur);
+            rr(&mut p, &nm, 1, 3, &[3, 3, 3, 3]);
+            rr(&mut p, &nm, 2, 3, &nm);
+            count += 2;
+            p[6] = (count >> 8) as u8;
+            p[7] = count as u8;
+            out.push(p);
         }
     }
     // many distinct suffixes, then reuse of early and late ones
